@@ -5,10 +5,13 @@ package main
 // harness compares goes through these types, never through the repository's normaliser.
 
 import (
+	"bytes"
+	"fmt"
 	"go.opentelemetry.io/collector/pdata/pcommon"
 	"go.opentelemetry.io/collector/pdata/pmetric"
 	"go.opentelemetry.io/collector/pdata/ptrace"
 	"math"
+	"regexp"
 )
 
 // AnyValue kinds (own numbering; the encoding uses letters).
@@ -186,10 +189,56 @@ func putValue(dst pcommon.Value, v AV) {
 	}
 }
 
+// A pcommon.Map may hold one key several times (the OTLP unmarshalers append what arrives), the Put*
+// helpers cannot build such a map. A repeated key is first stored under a placeholder key;
+// BuildTraces then takes the value through the OTLP/JSON marshaler, removes the placeholder
+// prefixes from the text and unmarshals it again.
+const dupKeyMark = "@@dupkey"
+
+var dupKeysPut int
+
 func putAttrs(m pcommon.Map, a Attrs) {
+	seen := map[string]bool{}
 	for _, kv := range a {
-		putValue(m.PutEmpty(kv.K), kv.V)
+		k := kv.K
+		if seen[k] {
+			dupKeysPut++
+			k = fmt.Sprintf("%s%06d@@%s", dupKeyMark, dupKeysPut, k)
+		}
+		seen[kv.K] = true
+		putValue(m.PutEmpty(k), kv.V)
 	}
+}
+
+var dupKeyRe = regexp.MustCompile(dupKeyMark + `[0-9]{6}@@`)
+
+// jsonSafeTraces: the OTLP/JSON round trip used by undupTraces keeps this value exactly (it does
+// not for NaN payloads, invalid UTF-8 and the like: such inputs are not used for duplicate keys)
+func jsonSafeTraces(t Traces) bool {
+	td0 := buildTraces(t)
+	js, err := (&ptrace.JSONMarshaler{}).MarshalTraces(td0)
+	if err != nil {
+		return false
+	}
+	td1, err := (&ptrace.JSONUnmarshaler{}).UnmarshalTraces(js)
+	if err != nil {
+		return false
+	}
+	p0, e0 := (&ptrace.ProtoMarshaler{}).MarshalTraces(td0)
+	p1, e1 := (&ptrace.ProtoMarshaler{}).MarshalTraces(td1)
+	return e0 == nil && e1 == nil && bytes.Equal(p0, p1)
+}
+
+func undupTraces(td ptrace.Traces) ptrace.Traces {
+	js, err := (&ptrace.JSONMarshaler{}).MarshalTraces(td)
+	if err != nil {
+		panic("harness: cannot marshal traces: " + err.Error())
+	}
+	out, err := (&ptrace.JSONUnmarshaler{}).UnmarshalTraces(dupKeyRe.ReplaceAll(js, nil))
+	if err != nil {
+		panic("harness: cannot unmarshal traces: " + err.Error())
+	}
+	return out
 }
 
 func f64(b uint64) float64 { return math.Float64frombits(b) }
@@ -348,6 +397,15 @@ func BuildMetrics(t Metrics) pmetric.Metrics {
 }
 
 func BuildTraces(t Traces) ptrace.Traces {
+	before := dupKeysPut
+	td := buildTraces(t)
+	if dupKeysPut != before {
+		td = undupTraces(td)
+	}
+	return td
+}
+
+func buildTraces(t Traces) ptrace.Traces {
 	td := ptrace.NewTraces()
 	for _, rs := range t.RSs {
 		r := td.ResourceSpans().AppendEmpty()
